@@ -9,6 +9,10 @@ pids = sys.argv[2:] or [meta["property"]]
 assert subprocess.run(["git", "-C", "/repo", "status", "--porcelain"], capture_output=True, text=True).stdout.strip() == "", "/repo not clean"
 subprocess.run(["git", "-C", "/repo", "apply", f"{d}/patch.diff"], check=True)
 res = {}
+import shutil
+for pid in pids:          # evidence written while a seeded change is applied must not replace the committed evidence
+    if os.path.exists(f"/verif/evidence/{pid}.json"):
+        shutil.copy(f"/verif/evidence/{pid}.json", f"/tmp/evidence_backup_{pid}.json")
 try:
     for pid in pids:
         p = subprocess.run(["/verif/check", pid, "--tier", "quick"], capture_output=True, text=True, cwd="/verif")
@@ -17,6 +21,9 @@ try:
         print(pid, p.returncode, *lines[:4], sep="\n  ")
 finally:
     subprocess.run(["git", "-C", "/repo", "checkout", "--", "."], check=True)
+    for pid in pids:
+        if os.path.exists(f"/tmp/evidence_backup_{pid}.json"):
+            shutil.move(f"/tmp/evidence_backup_{pid}.json", f"/verif/evidence/{pid}.json")
 meta.setdefault("detection", {}).update(res)
 meta["detected"] = any(v["rc"] == 1 for v in meta["detection"].values())
 json.dump(meta, open(f"{d}/meta.json", "w"), indent=1)
